@@ -289,6 +289,9 @@ def emit(o, repo, T):
     emit_struct4(o, repo, T)
     emit_struct5(o, repo, T)
     emit_struct5grad(o, repo, T)
+    emit_struct5k(o, repo, T)
+    emit_struct5k_rewrite(o, repo, T)
+    emit_struct5eval(o, repo, T)          # block J
 
 
 def _skip_prologue(T, fn, allowed):
@@ -4442,3 +4445,613 @@ def emit_struct5grad(o, repo, T):
             '    (children : N → List N) (weights : N → List W) (nid : N → Nat) (lls : Nat → L) (node : N) (g : L) : Option (List (Nat × L)) :=\n'
             f'  {sends}']
     o.const('gradient.eval_backward.rules', rules)
+
+
+# =========================================================================================================
+# BEGIN block J (append-only) — fifth wave, (c) (Oblig/Struct5Eval.lean): the LOOPS of the serial paths (`n_jobs == 0`) of
+# `eval_bottom_up` / `eval_top_down` (deeprob/spn/algorithms/evaluation.py) and the pass `moments.moment` runs, as folds over
+# the node list.  The per-node tasks (`eval_forward`, `eval_backward`) are rendered by `listprog.LPArr` as functions of the
+# tables they change; `leaf_func`, `node_func`, `sum_func` (PARAMETERS of the Python functions) stay uninterpreted.  Variables
+# are identified by their ROLE (parameters by position, the ordering = the result of `topological_order(root)`, the table =
+# the array allocated in the serial branch, the task = the nested function the loop calls), never by their name.
+# =========================================================================================================
+def emit_struct5eval(o, repo, T):
+    import listprog
+    import re
+    U = T.Untranslatable
+    HOOKS = '_verif_hooks'
+
+    def nodoc(stmts):
+        return [s for s in stmts if not (isinstance(s, ast.Expr) and isinstance(s.value, ast.Constant))]
+
+    def txt(e):
+        return ast.unparse(e).replace(' ', '')
+
+    def canon(names):
+        def f(node):
+            t = ast.unparse(node)
+            for a, b in names.items():
+                t = re.sub(rf'\b{re.escape(a)}\b', '\0' + b + '\0', t)
+            return t.replace('\0', '').replace(' ', '')
+        return f
+
+    def is_hook(st):
+        return (isinstance(st, ast.If) and txt(st.test) == f'{HOOKS}isnotNone' and not st.orelse
+                and all((isinstance(b, ast.Expr) and isinstance(b.value, ast.Call) and (T.dotted_name(b.value.func) or '').startswith(HOOKS + '.'))
+                        or (isinstance(b, ast.Assign) and isinstance(b.value, ast.Call) and (T.dotted_name(b.value.func) or '').startswith(HOOKS + '.'))
+                        for b in st.body))
+
+    def serial_branch(q, nparams):
+        """common shape of the two passes: parameters, the `if <n_jobs> == 0:` branch, its `for` loop over the ordering calling a nested task"""
+        ev = T.parse_file(repo, 'deeprob/spn/algorithms/evaluation.py')
+        imported = {}
+        for s in ev.body:
+            if isinstance(s, ast.ImportFrom):
+                for a in s.names:
+                    imported[a.asname or a.name] = f'{s.module}.{a.name}'
+        if imported.get('topological_order') != 'deeprob.spn.structure.node.topological_order' or imported.get('Leaf') != 'deeprob.spn.structure.leaf.Leaf':
+            raise U(f'{q}: topological_order / Leaf are not the ones of structure/node.py / structure/leaf.py')
+        fn = T.find_func(ev, q)
+        params = [a.arg for a in fn.args.args]
+        if len(params) != nparams or fn.args.vararg or fn.args.kwarg or fn.args.kwonlyargs or fn.args.posonlyargs:
+            raise U(f'{q}: expected {nparams} plain parameters, found {params}')
+        p_jobs = params[-1]
+        dflt = fn.args.defaults[-1] if fn.args.defaults else None
+        if dflt is None or T.const_value(dflt) != 0:
+            raise U(f'{q}: the default of {p_jobs} is not 0 (the serial path)')
+        stmts = nodoc(fn.body)
+        sel = T.the([s for s in stmts if isinstance(s, ast.If) and txt(s.test) == f'{p_jobs}==0'], f'{q}: `if {p_jobs} == 0:`')
+        k = stmts.index(sel)
+        serial = nodoc(sel.body)
+        loop = T.the([s for s in serial if isinstance(s, (ast.For, ast.While))], f'{q}: the loop of the serial branch')
+        if not isinstance(loop, ast.For) or loop.orelse or not isinstance(loop.target, ast.Name):
+            raise U(f'{q}: the loop of the serial branch is not a plain `for <node> in …`')
+        if serial[-1] is not loop:
+            raise U(f'{q}: statements after the loop inside the serial branch')
+        body = nodoc(loop.body)
+        if not (len(body) == 1 and isinstance(body[0], ast.Expr) and isinstance(body[0].value, ast.Call) and isinstance(body[0].value.func, ast.Name)
+                and [txt(a) for a in body[0].value.args] == [loop.target.id] and not body[0].value.keywords):
+            raise U(f'{q}: the loop body is not one call `<task>(<node>)`: {[txt(b) for b in body]}')
+        tname = body[0].value.func.id
+        task = T.nested_func(fn, tname)
+        tparam = T.the([a.arg for a in task.args.args], f'{q}: parameter of {tname}')
+        if task.args.vararg or task.args.kwarg or task.args.kwonlyargs or task.args.defaults:
+            raise U(f'{q}: {tname} has further parameters')
+        for n in ast.walk(task):
+            if isinstance(n, (ast.Global, ast.Nonlocal, ast.Return, ast.Lambda)) or (isinstance(n, ast.FunctionDef) and n is not task):
+                raise U(f'{q}: {tname} has a return / global / nonlocal / nested function')
+            if isinstance(n, ast.Name) and isinstance(n.ctx, (ast.Store, ast.Del)) and n.id in params + [tparam]:
+                raise U(f'{q}: {tname} assigns {n.id}')
+        # the ordering: `<ordering> = topological_order(<root>)`, `if <ordering> is None: raise …`
+        ords = [s.targets[0].id for s in serial if isinstance(s, ast.Assign) and len(s.targets) == 1 and isinstance(s.targets[0], ast.Name)
+                and isinstance(s.value, ast.Call) and isinstance(s.value.func, ast.Name) and [txt(a) for a in s.value.args] == [params[0]]
+                and not s.value.keywords and s.value.func.id not in ('len',)]
+        ordv = T.the(ords, f'{q}: `<ordering> = <order function>(<root>)` in the serial branch')
+        ocall = T.the([s.value for s in serial if isinstance(s, ast.Assign) and txt(s.targets[0]) == ordv], f'{q}: assignment of {ordv}')
+        if ocall.func.id != 'topological_order':
+            raise U(f'{q}: the nodes are ordered by {ocall.func.id}, not by topological_order')
+        guard = [s for s in serial if isinstance(s, ast.If)]
+        if not (len(guard) == 1 and txt(guard[0].test) == f'{ordv}isNone' and not guard[0].orelse and len(guard[0].body) == 1
+                and isinstance(guard[0].body[0], ast.Raise)):
+            raise U(f'{q}: no `if <ordering> is None: raise …` in the serial branch')
+        sizes = T.the([s for s in serial if isinstance(s, ast.Assign) and isinstance(s.targets[0], ast.Tuple)], f'{q}: `n_nodes, n_samples = …`')
+        if not (len(sizes.targets[0].elts) == 2 and all(isinstance(t, ast.Name) for t in sizes.targets[0].elts)):
+            raise U(f'{q}: sizes')
+        nn, ns = [t.id for t in sizes.targets[0].elts]
+        return dict(ev=ev, fn=fn, params=params, stmts=stmts, k=k, sel=sel, serial=serial, loop=loop, tname=tname, task=task, tparam=tparam,
+                    ordv=ordv, nn=nn, ns=ns)
+
+    def loop_iter(q, S, lp):
+        """the iterable of the serial loop as a term over `ordering`"""
+        it = lp.term(lp.ex(S['loop'].iter, {S['ordv']: ('t', 'ordering')}))
+        return it
+
+    def check_flags(q, S):
+        cs = [s.value for s in S['stmts'] if isinstance(s, ast.Expr) and isinstance(s.value, ast.Call) and T.dotted_name(s.value.func) == 'check_spn']
+        c = T.the(cs, f'{q}: check_spn call')
+        if [txt(a) for a in c.args] != [S['params'][0]] or S['stmts'].index(T.the([s for s in S['stmts'] if isinstance(s, ast.Expr) and s.value is c], 'check_spn')) > S['k']:
+            raise U(f'{q}: check_spn is not called on the root before the pass')
+        return T.lean_list([f'({T.lean_str(kw.arg)}, {T.lean_str(txt(kw.value))})' for kw in c.keywords])
+
+    # ---------------------------------------------------------------------------------------------- eval_bottom_up
+    def eval_up():
+        q = 'eval_bottom_up'
+        S = serial_branch(q, 8)
+        p_root, p_x, p_lf, p_nf, p_lfk, p_nfk, p_ret, p_jobs = S['params']
+        tabs = [s.targets[0].id for s in S['serial'] if isinstance(s, ast.Assign) and isinstance(s.targets[0], ast.Name) and isinstance(s.value, ast.Call)
+                and T.dotted_name(s.value.func) == 'np.empty']
+        ls = T.the(tabs, f'{q}: the table allocated by np.empty in the serial branch')
+        names = {S['ordv']: 'ordering', ls: 'ls', S['tname']: 'eval_forward', p_root: 'root', p_x: 'x', S['loop'].target.id: 'node',
+                 S['nn']: 'n_nodes', S['ns']: 'n_samples'}
+        if len(set(names)) != 8:
+            raise U(f'{q}: the roles of the variables overlap: {names}')
+        c = canon(names)
+        got = [c(s) for s in S['serial'] if s is not S['loop'] and not isinstance(s, ast.If)]
+        want = ['ordering=topological_order(root)', 'n_nodes,n_samples=(len(ordering),len(x))', 'ls=np.empty(shape=(n_nodes,n_samples),dtype=np.float32)']
+        if got != want:
+            raise U(f'{q}: the serial branch before the loop is {got}, expected {want}')
+        # statements before / after the branch
+        for st in S['stmts'][:S['k']]:
+            if isinstance(st, ast.FunctionDef) and st is S['task']:
+                continue
+            if isinstance(st, ast.Expr) and isinstance(st.value, ast.Call) and T.dotted_name(st.value.func) == 'check_spn':
+                continue
+            if isinstance(st, ast.If) and txt(st.test) in (f'{p_lfk}isNone', f'{p_nfk}isNone') and txt(st.body[0]) in (f'{p_lfk}=dict()', f'{p_nfk}=dict()') \
+                    and len(st.body) == 1 and not st.orelse:
+                continue
+            raise U(f'{q}: unexpected statement before the pass: {txt(st)[:60]}')
+        after = S['stmts'][S['k'] + 1:]
+        common = dict(rows={ls: ('getRow', 'setRow')}, attrs={'id': 'nid', 'children': 'children'}, classes={'Leaf': 'isLeaf'}, hooks=HOOKS,
+                      calls={p_lf: ('leafFunc', [None, f'{p_x}[:,{{0}}.scope]', f'**{p_lfk}']), p_nf: ('nodeFunc', [None, None, f'**{p_nfk}'])})
+        lp = listprog.LPArr(T, q, [(ls, 'ls')], **common)
+        env0 = {ls: ('t', 'ls'), p_root: ('t', 'root')}
+        rets = []
+        if not (len(after) == 2 and isinstance(after[0], ast.If) and txt(after[0].test) == p_ret and not after[0].orelse and len(after[0].body) == 1
+                and isinstance(after[0].body[0], ast.Return) and isinstance(after[0].body[0].value, ast.Tuple) and len(after[0].body[0].value.elts) == 2
+                and txt(after[0].body[0].value.elts[1]) == ls and isinstance(after[1], ast.Return)):
+            raise U(f'{q}: after the pass: {[txt(s)[:50] for s in after]}, expected `if return_results: return <entry>, ls` and `return <entry>`')
+        r1 = lp.term(lp.ex(after[0].body[0].value.elts[0], env0))
+        r2 = lp.term(lp.ex(after[1].value, env0))
+        if r1 != r2:
+            raise U(f'{q}: the two returns give different entries: {r1} / {r2}')
+        # the task
+        lpt = listprog.LPArr(T, q + '.' + S['tname'], [(ls, 'ls')], **common)
+        out = lpt.block(nodoc(S['task'].body), {ls: ('t', 'ls'), S['tparam']: ('t', 'n')})
+        extra = sorted(k for k in out if k not in (ls, S['tparam']))
+        if extra:
+            raise U(f'{q}: {S["tname"]} leaves further variables defined at its end: {extra}')
+        body = lpt.term(out[ls])
+        it = loop_iter(q, S, listprog.LPArr(T, q, [(ls, 'ls')], **common))
+        flags = check_flags(q, S)
+        return [
+            '/-- `eval_bottom_up.eval_forward(n)` (evaluation.py) on ONE row of the batch, as a function of the table `ls` it changes: `getRow t k` = '
+            '`t[k]`, `setRow t k v` = `t[k] = v` (rows by node id), `nid n` = `n.id`, `children n` = `n.children`, `isLeaf n` = `isinstance(n, Leaf)`, '
+            '`leafFunc n` = `leaf_func(n, x[:, n.scope], **leaf_func_kwargs)`, `nodeFunc n vs` = `node_func(n, np.stack(vs, axis=1), **node_func_kwargs)` '
+            '(the two function PARAMETERS of `eval_bottom_up`, uninterpreted); the verification hooks are inert; bound variables are named `x<depth>` -/\n'
+            'def S5evalUpTask {N T V : Type} (nid : N → Nat) (children : N → List N) (isLeaf : N → Bool) (getRow : T → Nat → V) (setRow : T → Nat → V → T)\n'
+            '    (leafFunc : N → V) (nodeFunc : N → List V → V) (ls : T) (n : N) : T :=\n'
+            f'  {body}',
+            '/-- `eval_bottom_up`, serial path (`n_jobs == 0`, the default): the loop `for node in <iterable>: eval_forward(node)` as a left fold over the table, '
+            '`ordering` = the list `topological_order(root)` returned; `evalForward` = the task above (a parameter, so that the loop composes with any reading of it) -/\n'
+            'def S5evalUpLoop {N T : Type} (evalForward : T → N → T) (ordering : List N) (ls : T) : T :=\n'
+            f'  (({it}).foldl (fun st1 x1 => evalForward st1 x1) ls)',
+            '/-- `eval_bottom_up`, serial path, whole: `none` = `ValueError` (`topological_order(root)` returned `None`); the table starts as '
+            '`np.empty((len(ordering), len(x)))` (`empty k`: `k` rows of unspecified content); the entry returned (first component; with `return_results` '
+            'the table is returned next to it) -/\n'
+            'def S5evalUp {N T V : Type} (nid : N → Nat) (getRow : T → Nat → V) (evalForward : T → N → T) (topologicalOrder : N → Option (List N))\n'
+            '    (empty : Nat → T) (root : N) : Option (V × T) :=\n'
+            '  match topologicalOrder root with\n  | none => none\n'
+            f'  | some ordering =>\n    let ls := S5evalUpLoop evalForward ordering (empty (ordering).length);\n    some ({r1}, ls)\n'
+            '/-- … the flags of the `check_spn` call that guards the pass -/\n'
+            f'def S5evalUpCheckSpn : List (String × String) := {flags}']
+    o.const('evaluation.eval_bottom_up.loop', eval_up)
+
+    # ---------------------------------------------------------------------------------------------- eval_top_down
+    def eval_down():
+        q = 'eval_top_down'
+        S = serial_branch(q, 9)
+        p_root, p_x, p_lls, p_lf, p_sf, p_lfk, p_sfk, p_inpl, p_jobs = S['params']
+        tabs = [s.targets[0].id for s in S['serial'] if isinstance(s, ast.Assign) and isinstance(s.targets[0], ast.Name) and isinstance(s.value, ast.Call)
+                and T.dotted_name(s.value.func) == 'np.zeros']
+        masks = T.the(tabs, f'{q}: the table allocated by np.zeros in the serial branch')
+        locks = [s.targets[0].id for s in S['stmts'][:S['k']] if isinstance(s, ast.Assign) and isinstance(s.targets[0], ast.Name)
+                 and isinstance(s.value, ast.Call) and T.dotted_name(s.value.func) == 'threading.Lock']
+        lock = T.the(locks, f'{q}: the lock')
+        names = {S['ordv']: 'ordering', masks: 'masks', S['tname']: 'eval_backward', p_root: 'root', p_x: 'x', S['loop'].target.id: 'node',
+                 S['nn']: 'n_nodes', S['ns']: 'n_samples', lock: 'masks_lock', p_lls: 'lls'}
+        if len(set(names)) != 10:
+            raise U(f'{q}: the roles of the variables overlap: {names}')
+        c = canon(names)
+        pre = [s for s in S['serial'] if s is not S['loop'] and not isinstance(s, ast.If)]
+        got = [c(s) for s in pre]
+        want = ['ordering=topological_order(root)', 'n_nodes,n_samples=(len(ordering),len(x))', 'masks=np.zeros(shape=(n_nodes,n_samples),dtype=np.bool_)']
+        if got[:3] != want or len(got) != 4:
+            raise U(f'{q}: the serial branch before the loop is {got}, expected {want} and the initialisation of the root mask')
+        for st in S['stmts'][:S['k']]:
+            if isinstance(st, ast.FunctionDef) and st is S['task']:
+                continue
+            if isinstance(st, ast.Expr) and isinstance(st.value, ast.Call) and T.dotted_name(st.value.func) == 'check_spn':
+                continue
+            if isinstance(st, ast.If) and not st.orelse and len(st.body) == 1 and (txt(st.test), txt(st.body[0])) in (
+                    (f'{p_lfk}isNone', f'{p_lfk}=dict()'), (f'{p_sfk}isNone', f'{p_sfk}=dict()'), (f'not{p_inpl}', f'{p_x}=np.copy({p_x})')):
+                continue
+            if isinstance(st, ast.Assign) and txt(st) == f'{lock}=threading.Lock()':
+                continue
+            if is_hook(st):
+                continue
+            raise U(f'{q}: unexpected statement before the pass: {txt(st)[:60]}')
+        after = S['stmts'][S['k'] + 1:]
+        if [txt(s) for s in after] != [f'return{p_x}']:
+            raise U(f'{q}: after the pass: {[txt(s)[:50] for s in after]}, expected `return x`')
+        common = dict(rows={masks: ('getMask', 'setMask')}, consts={p_lls: 'lls'}, attrs={'id': 'nid', 'children': 'children'}, hooks=HOOKS, locks={lock},
+                      calls={p_sf: ('sumFunc', [None, None, f'**{p_sfk}'])}, types={masks: 'M'})
+        # the initialisation of the root mask, from the allocated table
+        lp0 = listprog.LPArr(T, q, [(masks, 'masks')], **common)
+        env = lp0.stmt(pre[3], {masks: ('t', '(zeros (ordering).length)'), p_root: ('t', 'root')})
+        init = lp0.term(env[masks])
+        it = loop_iter(q, S, listprog.LPArr(T, q, [(masks, 'masks')], **common))
+        # the task: a dispatch chain on the node class
+        n = S['tparam']
+        body = [s for s in nodoc(S['task'].body) if not is_hook(s)]
+        disp = T.the(body, f'{q}: the dispatch of {S["tname"]}')
+        if not isinstance(disp, ast.If):
+            raise U(f'{q}: {S["tname"]} is not a dispatch on the node class')
+        CLS = {'Leaf': 'isLeaf', 'Product': 'isProduct', 'Sum': 'isSum'}
+        chain, cur, seen = [], disp, set()
+        while True:
+            t = cur.test
+            if not (isinstance(t, ast.Call) and T.dotted_name(t.func) == 'isinstance' and len(t.args) == 2 and txt(t.args[0]) == n
+                    and isinstance(t.args[1], ast.Name) and t.args[1].id in CLS and t.args[1].id not in seen):
+                raise U(f'{q}: dispatch test {txt(t)} is not isinstance(<node>, Leaf / Product / Sum)')
+            cls = t.args[1].id
+            seen.add(cls)
+            lp = listprog.LPArr(T, f'{q}.{S["tname"]} ({cls})', [(masks, 'masks'), (p_x, 'x')], **common)
+            env0 = {masks: ('t', 'masks'), p_x: ('t', 'x'), n: ('t', 'n')}
+            stmts = nodoc(cur.body)
+            if cls == 'Leaf':
+                # `<m> = np.ix_(<masks>[<n>.id], <n>.scope)`; `<x>[<m>] = leaf_func(<n>, <x>[<m>], **leaf_func_kwargs)`
+                if not (len(stmts) == 2 and isinstance(stmts[0], ast.Assign) and isinstance(stmts[0].targets[0], ast.Name)
+                        and isinstance(stmts[0].value, ast.Call) and T.dotted_name(stmts[0].value.func) == 'np.ix_' and len(stmts[0].value.args) == 2
+                        and txt(stmts[0].value.args[1]) == f'{n}.scope'):
+                    raise U(f'{q}: the leaf branch does not start with `<m> = np.ix_(<masks>[…], <node>.scope)`')
+                m = stmts[0].targets[0].id
+                sel = lp.term(lp.ex(stmts[0].value.args[0], env0))
+                if txt(stmts[1]) != f'{p_x}[{m}]={p_lf}({n},{p_x}[{m}],**{p_lfk})':
+                    raise U(f'{q}: the leaf branch does not end with `x[<m>] = leaf_func(<node>, x[<m>], **leaf_func_kwargs)`: {txt(stmts[1])}')
+                res = f'(masks, (leafWrite n {sel} x))'
+            else:
+                out = lp.block(stmts, env0)
+                if lp.term(out[p_x]) != 'x':
+                    raise U(f'{q}: the {cls} branch changes x')
+                res = f'({lp.term(out[masks])}, x)'
+            chain.append((CLS[cls], res))
+            if len(cur.orelse) == 1 and isinstance(cur.orelse[0], ast.If):
+                cur = cur.orelse[0]
+                continue
+            rest = nodoc(cur.orelse)
+            if len(rest) == 1 and isinstance(rest[0], ast.Raise):
+                final = 'raised'
+            elif not rest:
+                final = '(masks, x)'
+            else:
+                raise U(f'{q}: the final else of the dispatch is neither absent nor a raise')
+            break
+        if seen != set(CLS):
+            raise U(f'{q}: the dispatch does not cover Leaf, Product and Sum: {sorted(seen)}')
+        tbody = ''.join(f'if ({p} n) then {r}\n  else ' for p, r in chain) + final
+        flags = check_flags(q, S)
+        return [
+            '/-- `eval_top_down.eval_backward(n)` (evaluation.py) on ONE row of the batch, as a function of the pair (`masks`, `x`) it changes: `getMask m k` = '
+            '`m[k]` (that row\'s entry of the mask of node id `k`), `setMask m k b` = `m[k] = b`, `nid n` = `n.id`, `children n` = `n.children`, `isLeaf` / '
+            '`isProduct` / `isSum` = the `isinstance` tests in the order of the source, `leafWrite n b x` = the effect of `x[np.ix_(mask, n.scope)] = '
+            'leaf_func(n, x[np.ix_(mask, n.scope)], **leaf_func_kwargs)` on a row whose mask entry is `b`, `sumFunc n vs` = that row of `sum_func(n, '
+            'np.stack(vs, axis=1), **sum_func_kwargs)` (the branch index), `lls k` = `lls[k]`; `raised` = the branch that raises `NotImplementedError`; the lock '
+            'orders nothing on the serial path, the verification hooks are inert; bound variables are named `x<depth>`, fold states `st<depth>` -/\n'
+            'def S5evalDownTask {N M X L : Type} (nid : N → Nat) (children : N → List N) (isLeaf isProduct isSum : N → Bool) (getMask : M → Nat → Bool)\n'
+            '    (setMask : M → Nat → Bool → M) (leafWrite : N → Bool → X → X) (sumFunc : N → List L → Nat) (lls : Nat → L) (raised : M × X)\n'
+            '    (masks : M) (x : X) (n : N) : M × X :=\n'
+            f'  {tbody}',
+            '/-- `eval_top_down`, serial path (`n_jobs == 0`, the default): the loop `for node in <iterable>: eval_backward(node)` as a left fold over (`masks`, `x`), '
+            '`ordering` = the list `topological_order(root)` returned -/\n'
+            'def S5evalDownLoop {N M X : Type} (evalBackward : M × X → N → M × X) (ordering : List N) (masks : M) (x : X) : M × X :=\n'
+            f'  (({it}).foldl (fun st1 x1 => evalBackward st1 x1) (masks, x))',
+            '/-- `eval_top_down`, serial path, whole: `none` = `ValueError` (no topological order); the masks start as `np.zeros((len(ordering), len(x)))` '
+            '(`zeros k`) with the root\'s row set; the (copied, unless `inplace`) input rows are returned -/\n'
+            'def S5evalDown {N M X : Type} (nid : N → Nat) (setMask : M → Nat → Bool → M) (evalBackward : M × X → N → M × X)\n'
+            '    (topologicalOrder : N → Option (List N)) (zeros : Nat → M) (root : N) (x : X) : Option X :=\n'
+            '  match topologicalOrder root with\n  | none => none\n'
+            f'  | some ordering => some (S5evalDownLoop evalBackward ordering {init} x).2\n'
+            '/-- … the flags of the `check_spn` call that guards the pass -/\n'
+            f'def S5evalDownCheckSpn : List (String × String) := {flags}']
+    o.const('evaluation.eval_top_down.loop', eval_down)
+
+    # ---------------------------------------------------------------------------------------------- moments.moment
+    def moment_loop():
+        q = 'moment'
+        mo = T.parse_file(repo, 'deeprob/spn/algorithms/moments.py')
+        imported = {}
+        for s in mo.body:
+            if isinstance(s, ast.ImportFrom):
+                for a in s.names:
+                    imported[a.asname or a.name] = f'{s.module}.{a.name}'
+            elif isinstance(s, ast.FunctionDef):
+                imported[s.name] = f'moments.{s.name}'
+        want = {'eval_bottom_up': 'deeprob.spn.algorithms.evaluation.eval_bottom_up', 'node_likelihood': 'deeprob.spn.algorithms.inference.node_likelihood',
+                'leaf_moment': 'moments.leaf_moment'}
+        for k, v in want.items():
+            if imported.get(k) != v:
+                raise U(f'{q}: the name {k} is bound to {imported.get(k)}, expected {v}')
+        S = serial_branch('eval_bottom_up', 8)          # the pass `moment` runs: the serial path is the DEFAULT of `n_jobs`
+        fn = T.find_func(mo, q)
+        params = [a.arg for a in fn.args.args]
+        if len(params) != 2:
+            raise U(f'{q}: expected the parameters (root, order), found {params}')
+        p_root, p_order = params
+        for n in ast.walk(fn):
+            if isinstance(n, ast.Name) and isinstance(n.ctx, (ast.Store, ast.Del)) and n.id in params + list(want):
+                raise U(f'{q}: {n.id} is rebound inside the function')
+        stmts = nodoc(fn.body)
+        ret = stmts[-1]
+        if not (isinstance(ret, ast.Return) and isinstance(ret.value, ast.Call) and T.dotted_name(ret.value.func) == 'eval_bottom_up'
+                and len(ret.value.args) == 2 and txt(ret.value.args[0]) == p_root and isinstance(ret.value.args[1], ast.Name)):
+            raise U(f'{q}: does not end with `return eval_bottom_up(<root>, <matrix>, …)`')
+        mat = ret.value.args[1].id
+        kws = {k.arg: k.value for k in ret.value.keywords}
+        if sorted(kws) != ['leaf_func', 'leaf_func_kwargs', 'node_func']:
+            raise U(f'{q}: keywords of eval_bottom_up: {sorted(kws)} (`n_jobs` must stay at its default, the serial path)')
+        lk = kws['leaf_func_kwargs']
+        if not (isinstance(lk, ast.Dict) and [getattr(k, 'value', None) for k in lk.keys] == ['order'] and [txt(v) for v in lk.values] == [p_order]):
+            raise U(f'{q}: leaf_func_kwargs is not {{\'order\': <order>}}')
+        if not (isinstance(kws['leaf_func'], ast.Name) and isinstance(kws['node_func'], ast.Name)):
+            raise U(f'{q}: leaf_func / node_func are not plain names')
+        FN = {'leaf_moment': 'leafMoment', 'node_likelihood': 'nodeLikelihood'}
+        lf, nf = kws['leaf_func'].id, kws['node_func'].id
+        if lf not in FN or nf not in FN:
+            raise U(f'{q}: leaf_func / node_func are {lf} / {nf}, not leaf_moment / node_likelihood')
+        lf_term = f'({FN[lf]} order)' if lf == 'leaf_moment' else FN[lf]
+        nf_term = f'({FN[nf]} order)' if nf == 'leaf_moment' else FN[nf]
+        scn = T.the([s.targets[0].id for s in stmts if isinstance(s, ast.Assign) and isinstance(s.targets[0], ast.Name) and txt(s.value) == f'{p_root}.scope'],
+                    f'{q}: `<scope> = <root>.scope`')
+        m = T.the(T.assignments(fn, mat), f'{q}: {mat}')
+        if txt(m) != f'np.ones(shape=[len({scn}),len({scn})],dtype=np.float32)':
+            raise U(f'{q}: the input of the pass is not np.ones(shape=[len(scope), len(scope)]): {txt(m)}')
+        return [
+            '/-- `moments.moment(root, order)` after its guards: the bottom-up pass it runs, `evalBottomUp root leafFunc nodeFunc` = `eval_bottom_up(root, '
+            'np.ones([len(scope), len(scope)]), leaf_func=leafFunc, node_func=nodeFunc, leaf_func_kwargs={\'order\': order})` with `n_jobs` left at its default '
+            '(0: the serial loop `Gen.S5evalUp…`, checked), `leafMoment` = `moments.leaf_moment`, `nodeLikelihood` = `inference.node_likelihood` (checked: '
+            'the names are bound to these functions); one ROW of the matrix per variable (`S5momentRows`) -/\n'
+            'def S5momentLoop {N V R : Type} (evalBottomUp : N → (N → V) → (N → List V → V) → R) (leafMoment : Int → N → V)\n'
+            '    (nodeLikelihood : N → List V → V) (root : N) (order : Int) : R :=\n'
+            f'  (evalBottomUp root {lf_term} {nf_term})\n'
+            'def S5momentRows {N : Type} (scope : N → List Nat) (root : N) : Nat × Nat := (((scope root)).length, ((scope root)).length)']
+    o.const('moments.moment.loop', moment_loop)
+# END block J
+
+
+# =========================================================================================================
+# BLOCK K (append-only): skeletons of the `for` loops of `BinaryCLT.message_passing`, `mpe`, `sample` (cltree.py) and of the passes of
+# `prune` / `marginalize` (algorithms/structure.py), rendered by tools/listprog.py (class SK): the traversal, the slot of the state
+# that is written, the slots that are read, the statements around the loop that touch the state, what is returned.  The numerical
+# content of an iteration is a parameter (`body`) — the bodies themselves are the fourth-wave fragments `cltree.message_passing.body`,
+# `cltree.mpe`, `structure.prune`, `structure.marginalize.body`; Oblig/Struct5Clt.lean / Struct5Rewrite.lean tie the two together.
+# =========================================================================================================
+def emit_struct5k(o, repo, T):
+    import listprog
+    import re
+    U = T.Untranslatable
+    o.consts.append(listprog.PY5K_PRELUDE)
+    cltree = T.parse_file(repo, 'deeprob/spn/structure/cltree.py')
+
+    def nodoc(stmts):
+        return [s for s in stmts if not (isinstance(s, ast.Expr) and isinstance(s.value, ast.Constant))]
+
+    def txt(e):
+        return ast.unparse(e).replace(' ', '')
+
+    def params_of(fn, n, q):
+        a = [x.arg for x in fn.args.args]
+        if len(a) != n or fn.args.vararg or fn.args.kwarg or fn.args.kwonlyargs:
+            raise U(f'{q}: expected {n} positional parameters, found {a}')
+        return a
+
+    def canon_map(fn, fixed):
+        """the local variables of `fn` that are not in `fixed` renamed v0, v1, … in the order of their first store"""
+        names = dict(fixed)
+        stores = sorted((n.lineno, n.col_offset, n.id) for n in ast.walk(fn) if isinstance(n, ast.Name) and isinstance(n.ctx, ast.Store))
+        k = 0
+        for _, _, nm in stores:
+            if nm not in names:
+                names[nm] = f'v{k}'
+                k += 1
+        return names
+
+    def canon(names):
+        def f(node):
+            t = ast.unparse(node)
+            return re.sub(r'(?<![\w.])[A-Za-z_][A-Za-z_0-9]*\b', lambda m: names.get(m.group(0), m.group(0)), t).replace(' ', '')
+        return f
+
+    def other_reads(stmts, A, c):
+        """canonical texts of the subscript reads of everything that is not the state, sorted (what an iteration reads besides the state)"""
+        out_ = set()
+        for st in stmts:
+            for n in ast.walk(st):
+                if isinstance(n, ast.Subscript) and isinstance(n.ctx, ast.Load) and not (isinstance(n.value, ast.Name) and n.value.id == A):
+                    out_.add(c(n))
+        return sorted(out_)
+
+    def top_loop(q, fn):
+        stmts = nodoc(fn.body)
+        loop = T.the([s for s in stmts if isinstance(s, ast.For)], f'{q}: top-level `for` loop')
+        return stmts, loop, stmts.index(loop)
+
+    # ---- BinaryCLT.message_passing: zeros, the upward loop, `if not return_lls: return messages`, the value from messages[self.root] ----
+    def msg_loop():
+        q = 'BinaryCLT.message_passing'
+        fn = T.find_func(cltree, q)
+        S, X, OM, RL, RD = params_of(fn, 5, q)
+        stmts, loop, k = top_loop(q, fn)
+        sk = listprog.SK(T, q, axis=0, iter_syms={f'{S}.bfs': 'bfs'}, slot_syms={f'{S}.root': 'root'}, slot_tabs={f'{S}.tree': 'tree'},
+                         get='getRow', set_='setRow')
+        A = sk.state_of(loop)
+        # before the loop: `n_samples, n_features = x.shape`, `messages = np.zeros(shape=(n_features, n_samples, 2), dtype=…)`
+        shp = T.the([s for s in stmts[:k] if isinstance(s, ast.Assign) and txt(s.value) == f'{X}.shape'], f'{q}: `… = x.shape`')
+        if not (isinstance(shp.targets[0], ast.Tuple) and len(shp.targets[0].elts) == 2 and all(isinstance(e, ast.Name) for e in shp.targets[0].elts)):
+            raise U(f'{q}: `x.shape` is not unpacked into (n_samples, n_features)')
+        ns, nf = [e.id for e in shp.targets[0].elts]
+        names = canon_map(fn, {S: 'self', X: 'x', OM: 'obs_mask', RL: 'return_lls', RD: 'reduce', A: 'messages', ns: 'n_samples', nf: 'n_features',
+                               loop.target.id if isinstance(loop.target, ast.Name) else '?': 'j'})
+        c = canon(names)
+        init = T.the([s for s in stmts[:k] if isinstance(s, ast.Assign) and txt(s.targets[0]) == A], f'{q}: creation of the messages')
+        if not c(init.value).startswith('np.zeros(shape=(n_features,n_samples,2),'):
+            raise U(f'{q}: the messages are not created by np.zeros(shape=(n_features, n_samples, 2), …): {c(init.value)}')
+        for s in stmts[:k]:
+            if s is not init and any(isinstance(n, ast.Name) and n.id == A for n in ast.walk(s)):
+                raise U(f'{q}: the messages are used before the loop: {c(s)}')
+        fold, n = sk.fold(loop, A, 'messages', 'body', [], 'zeros')
+        # after the loop
+        ret0 = stmts[k + 1] if k + 1 < len(stmts) else None
+        if not (isinstance(ret0, ast.If) and txt(ret0.test) == f'not{RL}' and not ret0.orelse and len(ret0.body) == 1
+                and isinstance(ret0.body[0], ast.Return) and isinstance(ret0.body[0].value, ast.Name) and ret0.body[0].value.id == A):
+            raise U(f'{q}: the loop is not followed by `if not return_lls: return messages`')
+        rest = stmts[k + 2:]
+        occ = sk.occurrences(rest, A, None)
+        if not occ or any(m != 'load' for m, _, _ in occ) or {s for _, s, _ in occ} != {'root'}:
+            raise U(f'{q}: after the loop the messages are not read at `self.root` only: {occ}')
+        last = rest[-1]
+        if not (isinstance(last, ast.Return) and isinstance(last.value, ast.Name) and last.value.id != A):
+            raise U(f'{q}: does not end with `return <the values>`')
+        for s in rest[:-1]:
+            if any(isinstance(n_, ast.Return) for n_ in ast.walk(s)):
+                raise U(f'{q}: a return inside the root step')
+        bsig = 'Int → ' + ' → '.join(['R'] * n) + ' → R'
+        return ['/-- `BinaryCLT.message_passing` — the LOOP: `messages` starts as `np.zeros((n_features, n_samples, 2))` (`zeros`), the positions are '
+                'visited in the order rendered below (from `self.bfs`), an iteration at `j` hands to `body` the entries of `messages` it reads and '
+                'stores the result at the slot it writes (`getRow m i` = `m[i]`, `setRow m i v` = `m[i] = v`); then `if not return_lls: return '
+                'messages`, else the value computed from `messages[self.root]` alone (`rootValue`) -/\n'
+                'def S5cltMessagePassing {M R L : Type} (getRow : M → Int → R) (setRow : M → Int → R → M) (root : Int) (bfs tree : List Int)\n'
+                f'    (body : {bsig}) (rootValue : R → L) (zeros : M) (return_lls : Bool) : M ⊕ L :=\n'
+                f'  let messages := {fold};\n'
+                '  if (!return_lls) then .inl messages else .inr (rootValue (getRow messages root))',
+                '/-- … what an iteration of that loop reads besides `messages` (canonical names: `j` the loop variable, `v<i>` the i-th local) -/\n'
+                f'def S5cltMsgReads : List String := {T.lean_list([T.lean_str(x) for x in other_reads(loop.body, A, c)])}']
+    o.const('cltree.message_passing.loop', msg_loop)
+
+    # ---- BinaryCLT.mpe / sample: copy, messages = self.message_passing(…), the root store, the downward loop, `return x` -----------------
+    def decode_loop(q, lean):
+        fn = T.find_func(cltree, q)
+        S, X = params_of(fn, 2, q)
+        stmts, loop, k = top_loop(q, fn)
+        sk = listprog.SK(T, q, axis=-1, iter_syms={f'{S}.bfs': 'bfs'}, slot_syms={f'{S}.root': 'root'}, slot_tabs={f'{S}.tree': 'tree'},
+                         get='getCol', set_='setCol')
+        A = sk.state_of(loop)
+        if A != X:
+            raise U(f'{q}: the loop does not write the data array')
+        if not (stmts and txt(stmts[0]) == f'{X}=np.copy({X})'):
+            raise U(f'{q}: does not start with `x = np.copy(x)`')
+        names = canon_map(fn, {S: 'self', X: 'x', loop.target.id if isinstance(loop.target, ast.Name) else '?': 'j'})
+        c = canon(names)
+        lines, group, stored, msgs, sigs = [], [], False, None, []
+        for s in stmts[1:k]:
+            v = s.value if isinstance(s, ast.Assign) else None
+            if (isinstance(v, ast.Call) and txt(v.func) == f'{S}.message_passing'):
+                kws = {kw.arg: kw.value for kw in v.keywords}
+                if (stored or msgs is not None or len(v.args) != 2 or not isinstance(v.args[0], ast.Name) or v.args[0].id != A
+                        or set(kws) != {'return_lls', 'reduce'} or not isinstance(s.targets[0], ast.Name)
+                        or not all(isinstance(x_, ast.Constant) for x_ in kws.values())
+                        or not isinstance(kws['return_lls'].value, bool) or not isinstance(kws['reduce'].value, str)):
+                    raise U(f'{q}: message_passing is not called once, before any store, as (x, <mask>, return_lls=<const>, reduce=<const>)')
+                msgs = s.targets[0].id
+                names[msgs] = 'messages'
+                lines.append(f'let messages := messagePassing x {"true" if kws["return_lls"].value else "false"} {T.lean_str(kws["reduce"].value)};')
+                group = []
+                continue
+            occ = sk.occurrences([s], A, None)
+            if any(m in ('store', 'aug') for m, _, _ in occ):
+                if msgs is None:
+                    raise U(f'{q}: a store into the data before the messages are computed: {c(s)}')
+                term, n = sk.step(group + occ, 'x', [f'pre{len(sigs)}', 'messages'], 'store before the loop')
+                sigs.append(n)
+                lines.append(f'let x := {term};')
+                group, stored = [], True
+            elif msgs is not None:
+                if any(m == 'whole' for m, _, _ in occ):
+                    raise U(f'{q}: the data array is used as a whole after the messages were computed: {c(s)}')
+                group = group + occ
+        if msgs is None:
+            raise U(f'{q}: no call of message_passing before the loop')
+        if any(isinstance(n_, ast.Name) and n_.id == msgs and isinstance(n_.ctx, ast.Store) for s in stmts[k:] for n_ in ast.walk(s)):
+            raise U(f'{q}: the messages are reassigned')
+        fold, n = sk.fold(loop, A, 'x', 'body', ['messages'], 'x')
+        lines.append(f'let x := {fold};')
+        if [txt(s) for s in stmts[k + 1:]] != [f'return{X}']:
+            raise U(f'{q}: the loop is not followed by `return x` alone')
+        def sig(n_):
+            return ' → '.join(['E'] * n_ + ['Option E'])
+        pres = ''.join(f' (pre{i} : MSG → {sig(n_)})' for i, n_ in enumerate(sigs))
+        body = '\n  '.join(lines + ['x'])
+        return [f'/-- `{q}` — the LOOP on ONE row: `x = np.copy(x)`, the call of `self.message_passing` with its keywords, the store(s) before the '
+                'loop, the loop over the rendered traversal of `self.bfs`, `return x`.  `getCol x i` = the entry of variable `i`, `setCol x i v` writes '
+                'it; `pre<i>` / `body` receive the messages and exactly the entries of `x` the source reads, and return `some v` when the row is '
+                'selected by the mask of the store (`none`: the entry is kept) -/\n'
+                f'def {lean} {{X E MSG : Type}} (getCol : X → Int → E) (setCol : X → Int → E → X) (root : Int) (bfs tree : List Int)\n'
+                f'    (messagePassing : X → Bool → String → MSG){pres} (body : MSG → Int → {sig(n)}) (x : X) : X :=\n'
+                f'  {body}',
+                '/-- … what an iteration of that loop reads besides `x` -/\n'
+                f'def {lean}Reads : List String := {T.lean_list([T.lean_str(x_) for x_ in other_reads(loop.body, A, canon(names))])}']
+    o.const('cltree.mpe.loop', lambda: decode_loop('BinaryCLT.mpe', 'S5cltMpeLoop'))
+    o.const('cltree.sample.loop', lambda: decode_loop('BinaryCLT.sample', 'S5cltSampleLoop'))
+
+
+# ---- BLOCK K, continued (append-only): the passes of `prune` / `marginalize` (algorithms/structure.py) --------------------------------
+def emit_struct5k_rewrite(o, repo, T):
+    import listprog
+    import re
+    U = T.Untranslatable
+    structure = T.parse_file(repo, 'deeprob/spn/algorithms/structure.py')
+
+    def nodoc(stmts):
+        return [s for s in stmts if not (isinstance(s, ast.Expr) and isinstance(s.value, ast.Constant))]
+
+    def pass_loop(q, lean, nparams, tail_want, doc_tail):
+        fn = T.find_func(structure, q)
+        a = [x.arg for x in fn.args.args]
+        if len(a) != nparams:
+            raise U(f'{q}: expected {nparams} parameters, found {a}')
+        R = a[0]
+        stmts = nodoc(fn.body)
+        loop = T.the([s for s in stmts if isinstance(s, ast.For)], f'{q}: top-level `for` loop')
+        k = stmts.index(loop)
+        sk = listprog.SK(T, q, slot_attrs={'id': 'nid'}, var='node', get='get')
+        mk = stmts[k - 1] if k >= 1 else None
+        if not (isinstance(mk, ast.Assign) and len(mk.targets) == 1 and isinstance(mk.targets[0], ast.Name)):
+            raise U(f'{q}: the statement in front of the loop does not build the dictionary')
+        A = mk.targets[0].id
+        if not (isinstance(loop.iter, ast.Call) and isinstance(loop.iter.func, ast.Name) and loop.iter.args and isinstance(loop.iter.args[0], ast.Name)) \
+                and not isinstance(loop.iter, ast.Name):
+            raise U(f'{q}: the loop does not iterate over (a reversal of) a local list')
+        NL = loop.iter.id if isinstance(loop.iter, ast.Name) else loop.iter.args[0].id
+        sk.iter_syms = {NL: 'nodes'}
+        fixed = {R: 'root', A: 'nodes_map', NL: 'nodes', loop.target.id if isinstance(loop.target, ast.Name) else '?': 'node'}
+        for i, nm in enumerate(a[1:]):
+            fixed[nm] = ['keep_scope', 'copy'][i - (3 - nparams)] if nparams == 3 else 'copy'
+        names = dict(fixed)
+        stores = sorted((n.lineno, n.col_offset, n.id) for n in ast.walk(fn) if isinstance(n, ast.Name) and isinstance(n.ctx, ast.Store))
+        kk = 0
+        for _, _, nm in stores:
+            if nm not in names:
+                names[nm] = f'v{kk}'
+                kk += 1
+        def c(node):
+            t = ast.unparse(node)
+            return re.sub(r'(?<![\w.])[A-Za-z_][A-Za-z_0-9]*\b', lambda m: names.get(m.group(0), m.group(0)), t).replace(' ', '').replace('\n', '')
+        # the three statements in front of the loop: the order, the DAG test, the dictionary
+        head = [c(s) for s in stmts[max(0, k - 3):k]]
+        want = ['nodes=topological_order(root)', 'ifnodesisNone:raiseValueError', 'nodes_map=dict(map(lambdan:(n.id,n),nodes))']
+        head[1:2] = [head[1].split('(')[0]] if len(head) == 3 else head[1:2]
+        if head != want:
+            raise U(f'{q}: in front of the loop: {head}, expected {want}')
+        for s in stmts[:max(0, k - 3)]:
+            if any(isinstance(n, ast.Name) and n.id in (A, NL) for n in ast.walk(s)):
+                raise U(f'{q}: the order / the dictionary are used before they are built: {c(s)}')
+        fold, writes = sk.fold_keyed(loop, A, 'nodes_map', 'body', '(mkMap nodes)', c)
+        tail = [c(s) for s in stmts[k + 1:]]
+        if tail != tail_want:
+            raise U(f'{q}: after the loop: {tail}, expected {tail_want}')
+        return [f'/-- `{q}` — the PASS: `nodes = topological_order(root)` (`none`: not a DAG, `ValueError`), `nodes_map = {{n.id: n}}` (`mkMap`), '
+                'the nodes are visited in the rendered order, an iteration changes ONLY the slot of the visited node (`apply m k out`: the stores '
+                '/ attribute stores listed below, decided by `body`, which may read the dictionary at any key through `get`), then '
+                f'{doc_tail} -/\n'
+                f'def {lean} {{N V MAP O R : Type}} (nid : N → Nat) (get : MAP → Nat → V) (apply : MAP → Nat → O → MAP)\n'
+                '    (topological_order : N → Option (List N)) (mkMap : List N → MAP) (finish : V → R) (body : (Nat → V) → N → O) (root : N) : Option R :=\n'
+                '  match topological_order root with\n  | none => none\n  | some nodes =>\n'
+                f'    let nodes_map := {fold};\n'
+                '    some (finish (get nodes_map (nid root)))',
+                '/-- … the stores of an iteration into the dictionary (canonical names), and what `finish` stands for -/\n'
+                f'def {lean}Writes : List String := {T.lean_list([T.lean_str(x) for x in writes])}\n'
+                f'def {lean}Finish : List String := {T.lean_list([T.lean_str(x) for x in tail])}']
+    o.const('structure.prune.loop', lambda: pass_loop('prune', 'S5prunePassLoop', 2, ['returnassign_ids(nodes_map[root.id])'],
+                                                      '`assign_ids(nodes_map[root.id])` is returned (`finish`)'))
+    o.const('structure.marginalize.loop', lambda: pass_loop('marginalize', 'S5margPassLoop', 3,
+                                                            ['root=assign_ids(nodes_map[root.id])', 'returnprune(root,copy=False)'],
+                                                            '`prune(assign_ids(nodes_map[root.id]), copy=False)` is returned (`finish`)'))
